@@ -43,6 +43,9 @@ pub struct Backend {
     config: RwLock<Config>,
     stats: RwLock<Stats>,
     doc_state: Mutex<HashMap<Url, DocumentState>>,
+    /// Serializes the load-append-save cycle of the dictionary commands, which would otherwise
+    /// lose a word when two of them run concurrently.
+    dict_write_lock: Mutex<()>,
 }
 
 impl Backend {
@@ -52,6 +55,7 @@ impl Backend {
             stats: RwLock::new(Stats::new()),
             config: RwLock::new(config),
             doc_state: Mutex::new(HashMap::new()),
+            dict_write_lock: Mutex::new(()),
         }
     }
 
@@ -572,12 +576,16 @@ impl LanguageServer for Backend {
 
                 let file_url = second.parse().unwrap();
 
-                let mut dict = self.load_user_dictionary().await;
-                dict.append_word(word, WordMetadata::default());
-                self.save_user_dictionary(dict)
-                    .await
-                    .map_err(|err| error!("{err}"))
-                    .err();
+                {
+                    let _guard = self.dict_write_lock.lock().await;
+
+                    let mut dict = self.load_user_dictionary().await;
+                    dict.append_word(word, WordMetadata::default());
+                    self.save_user_dictionary(dict)
+                        .await
+                        .map_err(|err| error!("{err}"))
+                        .err();
+                }
 
                 // The user dictionary applies to every open document, not only the one the
                 // command was issued from.
@@ -606,22 +614,26 @@ impl LanguageServer for Backend {
 
                 let file_url = second.parse().unwrap();
 
-                let mut dict = match self
-                    .load_file_dictionary(&file_url)
-                    .await
-                    .map_err(|err| error!("{err}"))
                 {
-                    Ok(dict) => dict,
-                    Err(_) => {
-                        return Ok(None);
-                    }
-                };
-                dict.append_word(word, WordMetadata::default());
+                    let _guard = self.dict_write_lock.lock().await;
 
-                self.save_file_dictionary(&file_url, dict)
-                    .await
-                    .map_err(|err| error!("{err}"))
-                    .err();
+                    let mut dict = match self
+                        .load_file_dictionary(&file_url)
+                        .await
+                        .map_err(|err| error!("{err}"))
+                    {
+                        Ok(dict) => dict,
+                        Err(_) => {
+                            return Ok(None);
+                        }
+                    };
+                    dict.append_word(word, WordMetadata::default());
+
+                    self.save_file_dictionary(&file_url, dict)
+                        .await
+                        .map_err(|err| error!("{err}"))
+                        .err();
+                }
                 self.refresh_document(&file_url)
                     .await
                     .map_err(|err| error!("{err}"))
